@@ -38,6 +38,7 @@ import NemoVerif.Lemmas.V1Multi
 import NemoVerif.Lemmas.V1FollowDo
 import NemoVerif.Lemmas.V1Stack
 import NemoVerif.Lemmas.V1StackFollow
+import NemoVerif.Lemmas.V1Hide
 import NemoVerif.Lemmas.V1Run
 import NemoVerif.Lemmas.V1Mut
 import NemoVerif.Generated.LlmFlowsV1
@@ -926,5 +927,22 @@ example :
     (followAllK exLib "main" exMain "hi" 20 { ctx := [], ctr := 0, stk := [], dec := [] } (ev2.map REvent.toEvent)).bind
       (fun S => refLoopK exLib "main" exMain "hi" 20 oracle 10 S ev2 []) = some [.ev (.botIntent "bye"), listen] := by
   decide
+
+
+/-! ## Phase 4 (5): `hide_prev_turn` -/
+
+/-- **hide_prev_turn_is_cut.**  A `hide_prev_turn` event at the end of a history (what the runtime appends after a failed
+    action / an internal error): for ANY flow configs, the decision is the decision for the history cut before the last
+    user utterance (`cutAtLastUtterance`: everything from the last `UtteranceUserActionFinished` on is dropped) — so the
+    histories of `next_step_is_flow_statement(_with_do)` extend to histories with hidden turns by cutting them. -/
+theorem hide_prev_turn_is_cut (r : Bool) (cfgs : Cfgs) (config : Ctx) (H H' : List Event)
+    (hH : ∀ ev ∈ H, ev ≠ .hidePrevTurn) (hcut : cutAtLastUtterance H = some H') :
+    computeNextSteps r cfgs (H ++ [.hidePrevTurn]) config = computeNextSteps r cfgs H' config :=
+  NemoVerif.V1Hide.hide_is_cut r cfgs config H H' hH hcut
+
+/-- non-vacuity: two turns, the second one hidden -/
+example : cutAtLastUtterance [.other "UtteranceUserActionFinished" [], .userIntent "hi", .botIntent "b",
+      .other "UtteranceUserActionFinished" [], .userIntent "x", .botIntent "inform internal error occurred"]
+    = some [.other "UtteranceUserActionFinished" [], .userIntent "hi", .botIntent "b"] := by decide
 
 end NemoVerif.C14
